@@ -36,6 +36,14 @@ pub fn world2() -> Hierarchy<Arc<Relation>> {
     vec![(vec!["t1".to_string()], Arc::new(t1)), (vec!["t2".to_string()], Arc::new(t2)), (vec!["t3".to_string()], Arc::new(t3))].into_iter().collect()
 }
 
+/// the same catalogue with every table at a schema-qualified path and under a relation name of its own: main.t1 is the relation `t1x`
+/// (queries refer to it as `t1`, the unambiguous suffix of its path; SQLite resolves `"main"."t1"` to the same table)
+pub fn world2q() -> Hierarchy<Arc<Relation>> {
+    world2().iter().map(|(path, r)| { let n = path.last().unwrap().clone();
+        let t: Relation = Relation::table().name(format!("{n}x")).path(vec!["main".to_string(), n.clone()]).schema(r.schema().clone()).size(match r.size().max() { Some(m) => *m, None => 10 }).build();
+        (vec!["main".to_string(), n], Arc::new(t)) }).collect()
+}
+
 pub struct Data2 { pub t1: Vec<Vec<Cell>>, pub t2: Vec<Vec<Cell>>, pub t3: Vec<Vec<Cell>> }
 
 /// conforming instances: sizes within the declared bounds (incl. empty tables), unique keys distinct, boundary values, NULLs in `e`
